@@ -204,6 +204,11 @@ def scale(cell):
     if time_step > 0:
         tr = step_trace(calc, shot, R)
         dt_max = max(b.time - a.time for a, b in zip(tr, tr[1:]))
+        # independent of the step-trace seam (which itself relies on time steps being honoured): one integration step advances at most the
+        # maximum step through the air, so it lasts at most about MAX_STEP / speed; twice that, on the slowest returned row, is a generous cap
+        v_min = min(r.velocity >> Unit.FPS for r in rows)
+        if v_min > 0:
+            dt_max = min(dt_max, 2 * MAX_STEP / v_min)
     out = [{'msg': f'{drv} range {R} ft step {stname} time step {time_step} extra={extra}: {m}', 'key': None}
            for m in check_rows(rows, R_eff, s_eff, time_step, dt_max, spec, extra)]
     if st is None and time_step <= 0 and not extra and len(rows) not in (11, 12):
